@@ -295,7 +295,7 @@ func runReplayTest(repo, pkgdir, tags, src string) (bool, bool, string) {
 
 func tryReplay(verif, prop string, o *Obligation, rf *replayFile) {
 	fv := o.fv
-	if fv == nil || fv.replayTemplate == "" || o.Res.Verdict != VSat {
+	if fv == nil || fv.replayTemplate == "" || (o.Res.Verdict != VSat && !o.candidate) {
 		return
 	}
 	args, ok := fv.renderReplayArgs(o.Res.Output)
